@@ -18,8 +18,12 @@ theorem skeleton_ok :
     Skel.tell.good = true ∧ Skel.ask.good = true ∧
     casesOf "Queue.Receive" 0 = ["recv:ctx.Done()", "recv:q.closed", "recv:q.queue"] ∧
     casesOf "Queue.Deliver" 0 = ["recv:q.closed", "recv:q.freelist", "default"] ∧
-    casesOf "Queue.DeliverVec" 0 = ["recv:q.closed", "recv:q.freelist", "default"] := by
-  refine ⟨by decide, by decide, by decide, by decide, by decide⟩
+    casesOf "Queue.DeliverVec" 0 = ["recv:q.closed", "recv:q.freelist", "default"] ∧
+    -- the only channel operations outside a select are the deliverer's wait for its own callback (the commit point),
+    -- the return of a message to the freelist (which has room: the message came from it) and Purge's drain loop
+    Gen.Facts.bareChanOps = [("TellHub.Deliver", "recv:req.done"), ("AskHub.Deliver", "recv:req.done"),
+      ("Queue.Receive", "send:q.freelist"), ("Queue.Purge", "recv:q.queue,send:q.freelist")] := by
+  refine ⟨by decide, by decide, by decide, by decide, by decide, by decide⟩
 
 /-- ⊢ each delivered message enters at most one callback (never two concurrent receivers), for every schedule
     and every number of receivers and producers; a receiver inside a callback holds a message that was started. -/
